@@ -328,6 +328,11 @@ class Machine:
         if op == "trunc":
             a = self.val(env, i.ops[0], i.d["fromty"])
             return tuple(a[:w])
+        if op == "select" and i.ty.endswith("*"):
+            c = to_int(self.val(env, i.ops[0], "i1"))
+            if c is None:
+                raise Unsupported("select between pointers on symbolic data")
+            return self.val(env, i.ops[1] if c & 1 else i.ops[2], i.ty)
         a = self.val(env, i.ops[0], i.ty)
         if isinstance(a, Ptr):
             if op == "icmp" and i.d["pred"] in ("eq", "ne"):
